@@ -3,6 +3,8 @@ use crate::policy::PolicyInner;
 use crate::{CacheError, MetricType, Metrics};
 use futures::future::{BoxFuture, FutureExt};
 use parking_lot::Mutex;
+#[cfg(all(transparencies_stretto_verif, kani))]
+use crate::verif_kvec::Vec;
 use std::collections::hash_map::RandomState;
 use std::hash::BuildHasher;
 use std::sync::atomic::{AtomicBool, Ordering};
